@@ -278,7 +278,8 @@ def recvWd (w : W) (idx : Nat) (pfx pathId : Nat) : W :=
     if !ps.up then w else
     let w := { w with tick := w.tick + 1 }
     let r : Cand := { (default : Cand) with src := ps.cfg.srcInfo w.g, pfx := pfx, pathId := pathId, ts := w.tick }
-    let w := w.updPeer idx (fun ps => { ps with adj := adjWithdraw ps.adj r })
+    let adj' := adjWithdraw ps.adj r
+    let w := w.updPeer idx (fun q => { q with adj := adj' })
     propagate w ps.cfg r true
 
 /-- one destination of the initial table transfer -/
@@ -311,11 +312,49 @@ def sessionDown (w : W) (idx : Nat) : W :=
     let w := w.updPeer idx (fun ps => { ps with up := false, view := [], adj := {} })
     ps.adj.entries.foldl (fun w e => propagate w ps.cfg e.r true) w
 
+/-- the source of a locally injected route: table.localSource, the zero PeerInfo -/
+def localSrc : Src :=
+  { as := 0, localAS := 0, rid := 0, localRid := 0, addr := none, confed := false }
+
+/-- AddPath through the API (`addPathList` → `propagateUpdate(nil, …)`): no ingress LOCAL_PREF
+    stripping, no loop checks, same table update + fan-out -/
+def localAdd (w : W) (r0 : Cand) : W :=
+  let w := { w with tick := w.tick + 1 }
+  let r := { r0 with src := localSrc, ts := w.tick }
+  ribUpdate w (.ann r) r.pfx
+
+/-- DeletePath through the API -/
+def localDel (w : W) (pfx pathId : Nat) : W :=
+  let w := { w with tick := w.tick + 1 }
+  let r : Cand := { (default : Cand) with src := localSrc, pfx := pfx, pathId := pathId, ts := w.tick }
+  ribUpdate w (.wd r) pfx
+
+/-- AddPeer: a configured peer appears, session down -/
+def addPeer (w : W) (cfg : PeerCfg) : W :=
+  -- the neighbour map is keyed by address: a second peer with the same address is refused
+  if w.peers.any (fun q => q.cfg.idx == cfg.idx || q.cfg.addr == cfg.addr) then w
+  else { w with peers := w.peers ++ [{ cfg := cfg }] }
+
+/-- DeletePeer (`deleteNeighbor`): the Adj-RIB-In is dropped and withdrawn with fan-out while the
+    peer is still in the neighbour map, then the peer is removed (`stopNeighbor`) -/
+def delPeer (w : W) (idx : Nat) : W :=
+  match w.peer? idx with
+  | none => w
+  | some ps =>
+    let w := { w with tick := w.tick + 1 }
+    let w := w.updPeer idx (fun ps => { ps with adj := {} })
+    let w := ps.adj.entries.foldl (fun w e => propagate w ps.cfg e.r true) w
+    { w with peers := w.peers.filter (fun q => q.cfg.idx != idx) }
+
 inductive WOp where
   | up (idx : Nat)
   | down (idx : Nat)
   | ann (idx : Nat) (r : Cand)
   | wd (idx : Nat) (pfx pathId : Nat)
+  | localAdd (r : Cand)
+  | localDel (pfx pathId : Nat)
+  | add (cfg : PeerCfg)
+  | del (idx : Nat)
 deriving Repr
 
 def step (w : W) : WOp → W
@@ -323,5 +362,9 @@ def step (w : W) : WOp → W
   | .down i => sessionDown w i
   | .ann i r => recvAnn w i r
   | .wd i p k => recvWd w i p k
+  | .localAdd r => localAdd w r
+  | .localDel p k => localDel w p k
+  | .add c => addPeer w c
+  | .del i => delPeer w i
 
 end World
